@@ -53,11 +53,11 @@
 using namespace vf;
 
 // Build only a part of the configurations (parallel / faster compilation); cases of the other parts are skipped:
-//   -DVF_CAP_MASK=m     bit 0: capacity 16, bit 1: capacity 24, bit 2: capacity 64 (default 7)
+//   -DVF_CAP_MASK=m     bit 0: capacity 16, bit 1: capacity 24, bit 2: capacity 64, bit 3: capacity 8 (default 15)
 //   -DVF_TYPE_PARTS=n -DVF_TYPE_PART=k   only the stored types whose index % n == k are generated as STORED types
 //                       (isType is still asked for every type of the capacity)
 #ifndef VF_CAP_MASK
-#define VF_CAP_MASK 7
+#define VF_CAP_MASK 15
 #endif
 #ifndef VF_TYPE_PARTS
 #define VF_TYPE_PARTS 1
@@ -198,6 +198,17 @@ struct Pod
 };
 static_assert(std::is_trivially_destructible<Pod<8> >::value && std::is_trivially_copyable<Pod<40> >::value && sizeof(Pod<40>) == 40, "Pod<N> must be trivial and N bytes");
 
+// a value type with an initializer_list constructor that accepts the type itself (as JSON-like values and vector<any> have):
+// list-initialising a Nest from a Nest does not copy or move it, it wraps it one level deeper
+struct Nest
+{
+	std::shared_ptr<std::vector<Nest> > kids;
+	int id;
+	explicit Nest(int i) : id(i) {}
+	Nest(std::initializer_list<Nest> l) : kids(std::make_shared<std::vector<Nest> >(l)), id(-77) {}
+};
+static_assert(sizeof(Nest) == 24, "Nest is 24 bytes: inline for capacities >= 24");
+
 typedef Blob<24> Pointee;
 typedef std::unique_ptr<Pointee> UPtr;
 typedef std::shared_ptr<Pointee> SPtr;
@@ -225,8 +236,8 @@ struct SBox
 static_assert(sizeof(UPtr) == 8 && sizeof(SPtr) == 16 && sizeof(UBox<16>) == 16 && sizeof(UBox<72>) == 72 && sizeof(SBox<24>) == 24 && sizeof(SBox<72>) == 72, "box sizes");
 
 // ------------------------------------------------------------------ traits of the stored types
-enum TypeClass { TC_BLOB, TC_INT, TC_STRING, TC_UPTR, TC_SPTR, TC_UBOX, TC_SBOX, TC_POD, TC_KINDS };
-static const char * kClassName[] = { "blob", "int", "string", "unique_ptr", "shared_ptr", "move_only_box", "shared_box", "pod" };
+enum TypeClass { TC_BLOB, TC_INT, TC_STRING, TC_UPTR, TC_SPTR, TC_UBOX, TC_SBOX, TC_POD, TC_NEST, TC_KINDS };
+static const char * kClassName[] = { "blob", "int", "string", "unique_ptr", "shared_ptr", "move_only_box", "shared_box", "pod", "nested_value" };
 
 template <typename T> struct Tr;
 
@@ -237,6 +248,7 @@ static std::string typeName(int cls, int size, int variant)
 	switch(cls) {
 	case TC_BLOB: return "Blob<" + num(size) + (variant ? ",throwing-move>" : ">");
 	case TC_POD: return "Pod<" + num(size) + ">";
+	case TC_NEST: return "Nest";
 	case TC_INT: return "int";
 	case TC_STRING: return "std::string";
 	case TC_UPTR: return "unique_ptr<Blob<24>>";
@@ -253,6 +265,14 @@ template <int N, bool NX> struct Tr<Blob<N, NX> >
 	static long long fp(const Blob<N, NX> & v) { return v.observe(); }
 	static int srcState(const Blob<N, NX> & v) { return blobState(&v); }
 	static long shares(const Blob<N, NX> &) { return -1; }
+};
+template <> struct Tr<Nest>
+{
+	static const int cls = TC_NEST; static const bool copyable = true;
+	static Nest make(int id) { return Nest(id); }
+	static long long fp(const Nest & v) { return v.kids ? -2000000 - (long long)v.kids->size() : (long long)v.id; } // wrapped: not the value that was stored
+	static int srcState(const Nest &) { return -1; }
+	static long shares(const Nest &) { return -1; }
 };
 template <int N> struct Tr<Pod<N> >
 {
@@ -332,7 +352,8 @@ static TL<Blob<(int)I + 1>..., int, std::string, UPtr, SPtr,
 	UBox<(Cap < 16 ? 16 : Cap)>, UBox<(Cap < 16 ? 16 : Cap) + 8>,
 	SBox<(Cap < 24 ? 24 : Cap)>, SBox<(Cap < 24 ? 24 : Cap) + 8>,
 	Blob<8, false>, Blob<(Cap < 16 ? 16 : Cap) + 8, false>,                   // copyable, move constructor not noexcept: inline and on the heap
-	Pod<8>, Pod<(Cap < 16 ? 16 : Cap) + 8>, Pod<(Cap < 16 ? 16 : Cap) + 16> > // trivially destructible: inline, and two different ones on the heap
+	Pod<8>, Pod<(Cap < 16 ? 16 : Cap) + 8>, Pod<(Cap < 16 ? 16 : Cap) + 16>,  // trivially destructible: inline, and two different ones on the heap
+	Nest >                                                                     // initializer_list constructor accepting itself
 	makeTypeList(std::index_sequence<I...>);
 
 template <int Cap> struct TypesOf { typedef decltype(makeTypeList<Cap>(std::make_index_sequence<Cap + 24>())) Type; };
@@ -837,7 +858,7 @@ struct World
 		q.reset();
 	}
 
-	int ledgerKind(int t) const { const int c = ops[t].cls; return c == TC_BLOB ? 0 : (c == TC_INT || c == TC_STRING || c == TC_POD) ? 2 : 1; }
+	int ledgerKind(int t) const { const int c = ops[t].cls; return c == TC_BLOB ? 0 : (c == TC_INT || c == TC_STRING || c == TC_POD || c == TC_NEST) ? 2 : 1; }
 	// ---------- quiescent ledger check: every id is alive exactly as often as the model holds it
 	void quiescent() {
 		if(dead) return;
@@ -1111,13 +1132,14 @@ template <bool Enabled, int Cap> static typename std::enable_if<! Enabled>::type
 
 static void runCase(uint64_t caseNo, Rng & rng)
 {
-	static const int caps[3] = { 16, 24, 64 };
+	static const int caps[4] = { 16, 24, 64, 8 }; // AnyData<8>: a requested capacity below the library's minimum (16): it must behave exactly like AnyData<16>
 	const long long only = ctx().optInt("cap", -1);
-	const int cap = only > 0 ? (int)only : caps[caseNo % 3];
+	const int cap = only > 0 ? (int)only : caps[caseNo % 4];
 	switch(cap) {
 	case 16: runCapIf<(VF_CAP_MASK & 1) != 0, 16>(caseNo, rng); break;
 	case 24: runCapIf<(VF_CAP_MASK & 2) != 0, 24>(caseNo, rng); break;
 	case 64: runCapIf<(VF_CAP_MASK & 4) != 0, 64>(caseNo, rng); break;
+	case 8: runCapIf<(VF_CAP_MASK & 8) != 0, 8>(caseNo, rng); break;
 	default: --ctx().casesRun; break;
 	}
 }
